@@ -171,6 +171,9 @@ _loaded = {}
 
 
 def load(profile="dev", repo=None):
+    # the thorough tier re-runs the rules on the release-like MIR (no overflow checks): AVRA_PROFILE=rel
+    if profile == "dev" and os.environ.get("AVRA_PROFILE") in PROFILES:
+        profile = os.environ["AVRA_PROFILE"]
     k = (profile, repo or REPO)
     if k not in _loaded:
         _loaded[k] = Facts(profile, repo)
